@@ -1046,7 +1046,7 @@ def impl_checker_init(mf, path, base):
 
 
 CP_LAYOUTS = ["plain", "single", "inner-same-name-dir", "inner-same-name-file", "parent-same-name", "single",
-              "only-file-same-name", "only-file-same-name-nested"]
+              "only-file-same-name", "only-file-same-name-nested", "unnormalised-names"]
 SAME_NAME_TREES = {      # a DIRECTORY `data` whose only file is named like it: data/data, and data/data/data
     "only-file-same-name": ("data",),
     "only-file-same-name-nested": ("data", "data"),
@@ -1068,6 +1068,11 @@ def checkpaths_scenario(base, cp_seed, i, kinds=None):
     elif layout == "parent-same-name":
         base = os.path.join(base, "payload")
         sc = Scenario(base, rng, pl=pl, name="payload", never_single=True, sizes=[pl + 1, 0, 2 * pl], kinds=kinds)
+    elif layout == "unnormalised-names":
+        # decomposed (NFD) file / directory / payload names, and (every other round) equivalent names side by side as different files
+        name, comps = NAME_SHAPES[("nfd-file-and-directory", "equivalent-names-side-by-side", "nfd-payload-directory")[(i // len(CP_LAYOUTS)) % 3]]
+        sc = Scenario(base, rng, pl=pl, name=name, kinds=kinds,
+                      tree={c: rng.randbytes(rng.choice([pl + 9, 100, 2 * pl, 7, pl])) for c in comps})
     elif layout in SAME_NAME_TREES:
         # the payload is a directory that holds exactly ONE file, named like the directory: the v2 file tree of its metafile is
         # {name: {"": leaf}} -- the very shape of a single-FILE payload; only the disk tells them apart
@@ -1101,7 +1106,7 @@ def tie_checkpaths(ctx, mode, model_ok):
     payloads incl. the conformant v2 form without info.length, and the name-collision layouts (an entry named like the payload
     INSIDE the payload; a parent directory named like the payload; a file where the payload directory should be; a payload
     DIRECTORY whose only file is named like it -- data/data, data/data/data -- whose v2 file tree has the shape of a single-file
-    metafile).  The kinds include the v1 metafiles of another encoder with attr x / h / xh on ordinary files (fi_attr, fi_padding).
+    metafile; decomposed (NFD) file / directory / payload names and canonically equivalent names side by side: NAME_SHAPES).  The kinds include the v1 metafiles of another encoder with attr x / h / xh on ordinary files (fi_attr, fi_padding).
     Every (layout, state, root | parent) is also judged by the property itself against the reference verifier.
     """
     n = {"quick": len(CP_LAYOUTS), "thorough": 64}[ctx.tier]
@@ -1852,6 +1857,10 @@ def utf8_v1_plans(rec, tier):
     ]
     if b32:
         out.append((2 * B, [pick(b32, 0), pick(s, 2)], [5, 2 * B]))                       # 32 KiB pieces; the last piece is a file
+
+    def narrowest(klass, lst):            # the recipe whose text is shorter than its bytes by the least (1 when there is one)
+        return min(lst, key=lambda r: len(recipe_digest(klass, r)) - len(utf8_text(recipe_digest(klass, r))))
+    out.append((B, [narrowest("sha1-short", s)], "dir-one"))                              # ONE short piece, 19 characters of text
     if tier == "thorough":
         for i in range(len(b)):
             out.append((B, [b[i], pick(s, i + 3)], ["single", "dir-one", [B - 1], [1, B + 1]][i % 4]))
@@ -2064,6 +2073,28 @@ SCALE_RULE = (
     "removed, both copies damaged differently, a middle copy).  A part through cli.execute.  Replays rebuild the payload from the recorded "
     "case seed / family / index and apply the recorded damage.  The whole-run tie (recheck_model) also takes a small payload with two entries of "
     "identical multi-piece content (independent copies first and last, a different file between them) for every v2-view kind and v1.")
+
+
+TEXT_RULE = (
+    "  TEXT VERSUS BYTES (every mode; end to end, and in the Checker.__init__ tie and the whole-run tie recheck_model, whose decoder keeps bytes): "
+    "(a) NAMES that are not stable under a transformation of text, created on disk exactly so (NAME_SHAPES): DECOMPOSED (NFD) file and "
+    "directory names (cafe+U+0301.bin, re+U+0301sume+U+0301/...), a payload directory and a single-file payload whose own name is NFD, "
+    "canonically / compatibility-equivalent names side by side as DIFFERENT files (U+00E9 and e+U+0301; U+00C5, U+212B and A+U+030A; a "
+    "directory in both forms; ligature fi, circled one, full-width letters) and names with glob / regular-expression metacharacters "
+    "(a[1].bin next to a1.bin, st*r, wh?t, {x,y}, [!a], d[0-9]/f*, payload p[1]); metafiles of the six creators and of the reference encoder "
+    "(v1, v1 with attr, v2, hybrid), payload root AND parent directory; intact must be 100, a flip / truncation / removal in one of the "
+    "equivalent files is judged piece by piece by the reference verifier.  (b) RECORDED HASH STRINGS THAT ARE VALID UTF-8 WITH A MULTI-BYTE "
+    "CHARACTER (pyben returns str: the length and offsets of the text differ from those of the bytes; characters of 2, 3 and 4 bytes, text "
+    "shorter than the bytes by exactly 1 and by more): v1 -- the WHOLE `pieces` string of 1, 2, 3 (thorough: up to 5) pieces at 16 KiB and 32 KiB piece length, "
+    "single file / one file in a directory / the stream cut into several files incl. an empty one, kinds v1, reference v1 (+ attr); intact and "
+    "damaged: a flip in the LAST piece, in the first, in a middle piece, the last byte cut off, the whole last piece missing; v2 / hybrid "
+    "(all six kinds of the v2 view) -- the pieces root of a file not longer than a piece (17-byte file, a file exactly one piece long, two "
+    "blocks under a 32 KiB piece; single-file payload, only file of a directory, next to other files, three such files together at 64 KiB "
+    "pieces), the piece layers VALUE of a three-piece file, the pieces root of a multi-piece file (a piece layers KEY); intact and damaged: "
+    "the aimed file flipped / one byte short / removed, and ONLY A NEIGHBOUR flipped (the aimed piece must still verify).  The contents are "
+    "kept as recipes in harness/data/utf8_digests.json (found by search_utf8_contents: SHA-1 ~1e-5, SHA-256 ~1e-8 per try) and every digest is "
+    "recomputed and re-checked on every run; a failing input carries the parts of its payload (scope aimed-utf8) and replays from them.  "
+    "The fresh-interpreter CLI runs salt str hashes with a seed derived from the case seed (recorded as cli_hashseed) instead of 0.")
 
 
 MIB = 1 << 20
